@@ -418,6 +418,35 @@ def alias_checks(ctx, S):
     # repeatability of marshalling calls
     from vmon.spec import datain as D
 
+    # what one decode returned is not touched by a later decode of another response (of any format), nor by the caller editing
+    # that later result
+    from vmon.props.c06 import scribble_all
+
+    fmts = list(D.FORMATS.values())
+    for f in fmts:
+        for _ in range(12):
+            v1 = f.gen(rng)
+            b1 = f.encode(v1)
+            g = f if rng.random() < 0.7 else rng.choice(fmts)
+            v2 = g.gen(rng)
+            ctx.case(("held-result", f.name, g.name, bytes(b1)), True)
+            try:
+                r1 = f.lib_decode(b1, v1)
+                was = repr(r1)
+                r2 = g.lib_decode(g.encode(v2), v2)
+                scribble_all(r2)
+                again = repr(f.lib_decode(b1, v1))
+            except Exception:  # noqa: BLE001
+                ctx.count("held_result_decode_raised")
+                continue
+            ctx.count("held_results_rechecked")
+            if repr(r1) != was:
+                ctx.fail("C09:decode.earlier_result_changed.%s" % f.name, "the result of decoding a %s response changed when a %s response was decoded (and edited) afterwards" % (f.name, g.name),
+                         {"format": f.name, "then": g.name, "response": bytes(b1)})
+            elif again != was:
+                ctx.fail("C09:decode.depends_on_earlier_decode.%s" % f.name, "decoding the same %s response again after a %s response was decoded gives another result" % (f.name, g.name),
+                         {"format": f.name, "then": g.name, "response": bytes(b1)})
+
     for fname, f in D.FORMATS.items():
         if not f.builder:
             continue
